@@ -382,6 +382,18 @@ def run(chk):
     for b in behs:
         rp.run(b, "sim")
         chk.traces += 1
+    # 2b. the same on single-scheme contexts of every scheme with a cost: stored hashes at every cost of the table meet every window
+    for nm in [n for n in T if T[n]["P"]]:
+        nb1 = 120 if quick else 2500
+        c = consts_for(T, [nm], True, MaxOps=10, MaxStore=3)
+        r = tlc.run_instance("MC_Context", c, name="C04_sim1", invariants=INVS, action_constraint="Emit", next="SimNext",
+                             simulate=f"num={nb1}", depth=10, seed=chk.seed + 17, workers=1, coverage=False, timeout=3000)
+        chk.add_tlc(f"MC_Context simulation, contexts of {nm} alone ({nb1} configurations x 9 operations)", r)
+        b1 = split(r.emits)
+        for b in b1:
+            rp.run(b, "sim1")
+            chk.traces += 1
+        behs += b1
     valid = [b for b in behs if b[0]["res"][0] == "ok" and len(b) > 3]
     if valid:
         chk.sample({"configuration": valid[0][0]["cfg"], "steps": [{k: s[k] for k in ("op", "cat", "pw", "h", "res")} for s in valid[0][1:4]]})
